@@ -20,6 +20,18 @@ CHECKS = {
    technique="exhaustive single-fault enumeration: every structural mutation of every node of every corpus document, each loaded and generated in a worker process; oracle = no panic / no process death, error carries a locator, CLI exit status agrees",
    text="For every corpus document (repository specs and a spread of the level-1 cells) every single structural mutation at every node is applied (delete, null, five retypings, three $ref retargets, ancestor references creating non-component cycles, seven type and twelve format substitutions, parameter location swaps, schema moved under content, non-string server-variable defaults, 2-cycles between components). Each mutant the loader accepts is run through the real generator in a worker process (so stack overflows are observed, not fatal to the check); panics, process deaths, empty errors and errors that name no key of the mutated node's path are violations; a deterministic subset and every crashing mutant is re-run through the real CLI binary for the exit-status half.",
    note="single mutations only (pairs are not enumerated); documents rejected by the kin-openapi loader are counted, not judged; the locator oracle is deliberately weak: any specific key on the JSON-pointer path of the mutated node (or the referenced name) appearing in the message satisfies it"),
+ "C03": dict(engine="batch+drv", ref="§4 C03",
+   technique="explicit-state enumeration of canonical path-template sets × method sets × base-path forms (each generated and compiled), and for each state ALL request paths up to depth 5 over the alphabet × methods, compared with a reference OpenAPI path matcher",
+   text="Every canonical set of 1-3 pairwise non-equivalent templates over {a, b, {x}, {y}, empty last segment} (depth <= 3 quick, <= 4 thorough) × method sets × 11 base-path forms is generated with the real goag, compiled, and driven with every request path of <= 5 segments over {a, b, c, empty} under 2-7 prefixes (base path, none, off-by-one, foreign) × {GET, POST, DELETE, OPTIONS} × {custom, default} not-found handler (3.5e7 requests quick). Each observation (which handler field ran / not found, SchemaPath seen by a middleware) must lie in the set the reference matcher allows.",
+   note="template sets are canonicalised under a<->b and x<->y; an empty request segment aligned with a variable and best-path-lacks-method are don't-cares (DESIGN §11); segment alphabet is two literals and two variable names"),
+ "C05": dict(engine="batch+drv", ref="§4 C05",
+   technique="enumeration of template shapes × type assignments × declaration order × base forms (compiled), all request paths over literal + per-type lexeme alphabets; oracle = reference lexer on the segment aligned with each variable",
+   text="For 15 template shapes (incl. two-template sets with shared prefixes), every assignment of 5 (quick) / 10 (thorough) parameter types incl. $ref-to-primitive to the first two variables, parameters declared at path-item level in template order or at operation level reversed, under 2-6 base-path forms: every request path over {a, b, empty} ∪ the lexeme tables (canonical, boundary, out-of-range, garbage) of the assigned types up to the template depth is served; for every dispatched request Parse() must yield exactly the typed value of the aligned segment, or fail naming a failing parameter; never succeed on an empty or out-of-space segment.",
+   note="only dispatched requests are judged (mis-dispatch is C03's); lexemes Go accepts beyond the OpenAPI lexical space are don't-cares; at most two variables per template vary independently"),
+ "C16": dict(engine="batch+drv", ref="§4 C16",
+   technique="enumeration of routing states × {secured, public} × cors on/off (compiled), all requests of depth <= 3 × methods × token states under middleware stacks of length 0..4; oracle = exact enter/auth/handler/leave trace",
+   text="For every C03 template set of the tier with and without a bearer requirement on the first operation and cors on/off, every request (paths <= 3 segments × GET/POST/DELETE(/OPTIONS) × token absent/good/bad, plus the spec-file request) is served under middleware stacks of length 0-4 and with custom/default not-found handler. Routed requests (handler ran, authenticator ran, or 401) must show enter 1..n, [auth], [handler], leave n..1 with every middleware seeing the matched template; unrouted and spec-file requests must show no middleware mark.",
+   note="whether the right operation was chosen is C03's business, whether the right operations demand credentials is C11's; OPTIONS answered by the CORS handler is a don't-care"),
 }
 NA_REASON = "check not built yet (work in progress; see DESIGN.md §13)"
 def main():
